@@ -3,6 +3,7 @@ package main
 import (
 	"fmt"
 	"math/rand"
+	"sync/atomic"
 	"time"
 
 	cedar "github.com/cedar-policy/cedar-go"
@@ -70,6 +71,12 @@ func opHier(c Obj) J {
 			sets = append(sets, us)
 		}
 	}
+	// A query that does not terminate cannot be stopped and keeps a core busy: after a few
+	// of them the remaining cases of this process are skipped ([-3], not judged) so that
+	// the run ends and the non-terminating ones are reported.
+	if hierHangs.Load() >= 3 {
+		return []any{-3}
+	}
 	done := make(chan []any, 1)
 	go func() {
 		defer func() {
@@ -82,10 +89,13 @@ func opHier(c Obj) J {
 	select {
 	case v := <-done:
 		return v
-	case <-time.After(20 * time.Second):
+	case <-time.After(10 * time.Second):
+		hierHangs.Add(1)
 		return []any{-1}
 	}
 }
+
+var hierHangs atomic.Int32
 
 func evalBool(node ast.IsNode, store types.EntityMap) bool {
 	v, err := eval.Eval(node, eval.Env{Entities: store, Principal: hierUID(1), Action: hierUID(1), Resource: hierUID(1), Context: types.Record{}})
@@ -173,6 +183,9 @@ func hierVector(n int, store types.EntityMap, sets [][]types.EntityUID) []any {
 func cmpHier(c Obj, obs, exp J) []int {
 	o, _ := obs.([]any)
 	e, _ := exp.([]any)
+	if len(o) == 1 && fmt.Sprint(o[0]) == "-3" {
+		return nil // skipped after earlier non-terminating cases: not judged
+	}
 	if len(o) != len(e) {
 		return []int{-1}
 	}
